@@ -615,14 +615,20 @@ func replyFor(g *genCtx, sp sessParams, class byte, fn, cmdNo byte, prefix []byt
 		r = b.seal(rsp(fn, cmdNo, 0, body))
 		r[g.rng.Intn(4)] ^= 1 << g.rng.Intn(8)
 	case 'P': // valid AuthCode over a payload whose confidentiality pad is wrong
-		msg := rsp(fn, cmdNo, 0, body)
+		// any message length (pads of 0…15 bytes, and the 16-byte pad an OpenSSL-style BMC produces for a message of
+		// length 15 mod 16); ONE byte of the pad — any of them, the first included — or the pad-length byte is wrong
+		msg := rsp(fn, cmdNo, 0, rbytes(g.rng, g.rng.Intn(24)))
 		padn := 15 - len(msg)%16
+		if padn == 0 && g.rng.Intn(2) == 0 {
+			padn = 16
+		}
 		pt := append([]byte(nil), msg...)
 		for i := 1; i <= padn; i++ {
 			pt = append(pt, byte(i))
 		}
 		pt = append(pt, byte(padn))
-		pt[len(pt)-2] ^= 0x40
+		at := len(msg) + g.rng.Intn(padn+1)
+		pt[at] ^= 1 << g.rng.Intn(8)
 		var key [16]byte
 		copy(key[:], sp.k2)
 		payload := rawAES(key, rbytes(g.rng, 16), pt)
